@@ -82,6 +82,33 @@ CHECKS = {
              "characters must finish within 2 s and doubling n may multiply the time by at most 2^5.5.",
         note="Trusted: TLC, the sre parse tree, wall-clock with generous growth thresholds. Polynomial degree is measured, not modelled (IDA not in the spec).",
         design="4 C19"),
+    "C18": dict(
+        technique="TLA+ protocol spec DumpProtocol.tla (validate / open / write with injected failing validation point): TLC model check incl. liveness, fault enumeration replayed on the real dump(path), recorded event orders validated by TLC (Trace_Dump.tla)",
+        text="TLC checks FailedDumpLeavesDisk, SuccessWrites, NoValidationAfterOpen and Terminates for every (top, nested, failAt, disk state) "
+             "of the reference protocol and refutes the as-shipped open-before-serialize order; validation points are measured on the working "
+             "tree (every _validate* call occurrence of a valid dump of 17 sample shapes of the 7 formats), TLC enumerates failAt x {absent, "
+             "previous copy}, and each failure is injected into the real dump(path) and the destination's bytes/existence compared; real "
+             "invalid field values are dumped over existing files; the event order (validate*/open/write) of every recorded dump, incl. "
+             "the repository's tests, is validated against the spec.",
+        note="Trusted: TLC, the validator/open wrappers installed from /verif (no repo hooks). Failures of the JSON/INI writer itself (after serialisation) are outside the statement.",
+        design="4 C18"),
+    "C06": dict(
+        technique="TLA+ rule-table spec Validation.tla (documented field constraints x validation walk): TLC enumerates every single-slot corruption of measured node instances; real dumps() compared",
+        text="The spec holds one rule per (node kind, field, invalid class) for all seven formats plus the validation walk; TLC checks walk "
+             "completeness against node instances measured on 17 real sample objects and enumerates every (sample, node instance, field, "
+             "invalid class); each is applied to the real object through the public attribute and dumps() must raise TypeError/ValueError; "
+             "conversely every sample and one valid object per documented enumeration value (5 compose types, 9 release types, 10 labels, "
+             "variant/image types, formats, all 61 architectures) must be written.",
+        note="Trusted: TLC, the token->value table, sample builders. One corruption at a time; value classes, not all values.",
+        design="4 C06"),
+    "C07": dict(
+        technique="TLA+ rule-table spec Validation.tla, document side: TLC enumerates slot corruptions, header type swaps, mangled versions and deleted required keys; documents edited by independent JSON/INI tools and fed to the real loads()",
+        text="Same rule table applied to the dumped documents (load-side column: reject / documented coercion), plus header type swaps to each "
+             "other format's type at versions 1.1/1.2/2.0, eight malformed version strings and every required key or section deleted "
+             "(Required set in the spec, from the format docs); loads() must raise, and a value accepted by a documented coercion must yield "
+             "an object the writer accepts.",
+        note="Trusted: TLC, independent RawConfigParser/json editing of real dump text.",
+        design="4 C07"),
 }
 
 
